@@ -5,6 +5,7 @@ go 1.23.0
 require (
 	cosmossdk.io/core v1.0.0
 	github.com/anishathalye/porcupine v1.3.0
+	github.com/bvinc/go-sqlite-lite v0.6.1
 	github.com/cosmos/iavl v1.3.5
 	github.com/cosmos/iavl/v2 v2.0.0
 	github.com/cosmos/ics23/go v0.11.0
@@ -14,7 +15,6 @@ require (
 require (
 	github.com/aybabtme/uniplot v0.0.0-20151203143629-039c559e5e7e // indirect
 	github.com/beorn7/perks v1.0.1 // indirect
-	github.com/bvinc/go-sqlite-lite v0.6.1 // indirect
 	github.com/cespare/xxhash/v2 v2.3.0 // indirect
 	github.com/cosmos/gogoproto v1.7.0 // indirect
 	github.com/cosmos/iavl-bench/bench v0.0.4 // indirect
